@@ -1456,3 +1456,17 @@ def _set_union(interp, recv, args, kwargs, node, frame):
 @method("set", "difference")
 def _set_difference(interp, recv, args, kwargs, node, frame):
     return recv.difference(*[set(a) for a in args])
+
+
+@lib("numpy.sort")
+def _np_sort(interp, args, kwargs, node, frame):
+    """np.sort(rows, axis=1) of a list of [a, b] pairs: every pair ordered (a fresh list; the argument is not modified)"""
+    rows = args[0]
+    axis = kwargs.get("axis", args[1] if len(args) > 1 else -1)
+    if isinstance(rows, list) and all(isinstance(r, list) and len(r) == 2 for r in rows) and axis in (1, -1):
+        out = []
+        for r in rows:
+            a, b = to_real(r[0]), to_real(r[1])
+            out.append([z3.If(a <= b, a, b), z3.If(a <= b, b, a)])
+        return out
+    raise Unsupported("np.sort other than axis=1 of a list of pairs", node)
